@@ -52,6 +52,9 @@ def codec(chk, repo, f):
     cases += [(("H", 7, "HB"), None), (("HH", 7, 8, "B"), None),
               (("HHB",), None), (("HHB", 1, 2, 3), None),
               (("H", 9, "H", 10, "B"), None)]
+    # raw data handed over in a buffer the caller goes on using
+    cases += [((), bytearray(b"raw")), (("H", 1), bytearray(b"xy")),
+              ((), bytearray())]
     bad = []
     rows = 0
     # one master for the whole family (a request must not depend on the
@@ -110,6 +113,12 @@ def codec(chk, repo, f):
             got_ = bytes(queued[0][1]).hex() if queued else None
             bad.append(f"{tag}: queues payload {got_}, expected "
                        f"{want_out.hex()}")
+            continue
+        if isinstance(data, bytearray) and (queued[0][1] is data or (
+                isinstance(queued[0][1], memoryview))):
+            bad.append(f"{tag}: the caller's own buffer is queued: what the "
+                       f"caller writes into it before the frame is "
+                       f"assembled goes onto the wire")
             continue
         resp = fut.fields["__await_result__"]
         if data is None:
